@@ -40,6 +40,8 @@ def model_case(case):
     if static_ids:
         case = ' ; '.join(op for op in case.split(' ; ') if not (op.split()[:1] == ['dh'] and op.split()[1] in static_ids))
     case = re.sub(r'\bncs (\d+)', r'nc \1', case)
+    # `sgn t`: the collector that discards everything as global default = a collector (number 9) that refuses every callsite
+    case = re.sub(r'\bsgn (\d+)', lambda m: 'nc 9 %s %s - ; sg %s 9' % ('n' * NCS, '0' * NCS, m.group(1)), case)
     return re.sub(r'wc (\d+) (\d+) (\d+)', r'sd \1 \2 ; em \1 \3 ; pd \1', case)
 
 def gen_history(rng, nops, style='cache', static=5):
@@ -83,7 +85,10 @@ def gen_history(rng, nops, style='cache', static=5):
                     ops.append('pd %d' % t); depth[t] = max(0, depth[t] - 1)
         elif r < 0.14 + 0.18 * w_scope + 0.03 and handles:
             if not global_set or rng.random() < 0.3:
-                c = rng.choice(sorted(handles)); ops.append('sg %d %d' % (rng.randrange(nthreads), c)); global_set = True
+                if style == 'scope' and not global_set and rng.random() < 0.35:
+                    ops.append('sgn %d' % rng.randrange(nthreads)); global_set = True       # NoCollector through tracing::collect::set_global_default
+                else:
+                    c = rng.choice(sorted(handles)); ops.append('sg %d %d' % (rng.randrange(nthreads), c)); global_set = True
         elif r < 0.14 + 0.18 * w_scope + 0.06 and nthreads < 4:
             ops.append('ts'); depth[nthreads] = 0; nthreads += 1
         elif r < 0.14 + 0.18 * w_scope + 0.09:
